@@ -253,6 +253,14 @@ Section Simp.
   Definition has_met (wm : bool) (h : cen) (r : env) : bool :=
     match snd (linC wm h r) with Some _ => true | None => false end.
 
+  (* A sequence of linearized calls (want_metric flag, point) on ONE specialised energy.  In the model the
+     specialised energy is a value and every call is a function application: what a call returns cannot depend on
+     the calls made before it.  The check applies the implementation's specialised operator in several orders of
+     want_metric = False/True calls and compares each observation with this model; an implementation whose
+     answers depend on the call history therefore disagrees with the model. *)
+  Definition call_seq (wmh : cen) (calls : list (bool * env)) : list (A * jop A * option (mop A)) :=
+    map (fun c => linC (fst c) wmh (snd c)) calls.
+
   Fixpoint cshape (K : nat) (h : cen) : bool :=
     match h with
     | CGauss n _ _ e => match eshape A P K dims e with Some m => m =? n | None => false end
